@@ -2,6 +2,7 @@ import S3V.Thm.EvStream
 import S3V.Thm.EvStreamXml
 import S3V.Thm.EvStreamTrunc
 import S3V.Thm.Itoa
+import S3V.Thm.EvStreamWidth
 /-!
 # C15 — SelectObjectContent events are framed as valid AWS event-stream messages (property theorems only)
 
@@ -33,6 +34,23 @@ theorem C15_serialize_ok_iff_sizesOk (crc32 : Bytes → Nat) (m : Message) :
   constructor
   · rintro ⟨b, h⟩; exact ((serialize_ok_iff crc32 m b).mp h).1
   · intro h; exact ⟨_, (serialize_ok_iff crc32 m _).mpr ⟨h, rfl⟩⟩
+
+/-- the pointer width does not matter: `serializeW limit` is `Message::serialize` on a target with
+    `usize::MAX + 1 = limit` (`serialize` itself is the instance `2^64`). On every target of at least 32 bits
+    the same messages are framed and the frames are the same bytes; a message is refused on one target iff it is
+    refused on the other (only the kind of the error can differ: from `limit` bytes on it is `LengthOverflow`) -/
+theorem C15_serialize_width_independent (limit : Nat) (hl : 4294967296 ≤ limit) (crc32 : Bytes → Nat) (m : Message) :
+    serializeW usizeLimit crc32 m = serialize crc32 m ∧
+    (∀ b, serializeW limit crc32 m = .ok b ↔ serialize crc32 m = .ok b) ∧
+    (serializeW limit crc32 m =
+      if limit ≤ 16 + hdrSize m.headers + (payloadBytes m).length then .error .lengthOverflow
+      else if sizesOk m then .ok (frameOf crc32 m) else .error .intOverflow) :=
+  ⟨serializeW_usizeLimit crc32 m,
+    fun b => by rw [serializeW_ok_iff limit hl, serialize_ok_iff],
+    serializeW_eq limit (by omega) crc32 m⟩
+
+/-- non-vacuity: the 32-bit target meets the hypothesis -/
+example : (4294967296 : Nat) ≤ 4294967296 := by decide
 
 /-- MAIN (frame): whatever `serialize` produces, the independent decoder reads back as exactly the message's
     headers (all string typed) and payload, consuming exactly the frame — for an arbitrary CRC function -/
